@@ -581,3 +581,5 @@ func keys(m map[int]bool) []int {
 func TestPropMatch(t *testing.T) { hx.Check(t, 50000, genCase, runCase) }
 
 func TestReplay(t *testing.T) { hx.Replay(t, "TestPropMatch", 1, runCase) }
+
+func FuzzMatch(f *testing.F) { hx.Fuzz(f, genCase, runCase) }
